@@ -26,6 +26,12 @@ func (e *Engine) external(fn *ssa.Function) externalFn {
 			return f
 		}
 	}
+	if strings.HasPrefix(name, "reflect.TypeFor[") {
+		return func(fr *frame, args []value) value {
+			e.noteStub("reflect.TypeFor")
+			return iface{}
+		}
+	}
 	if f, ok := e.externals[name]; ok {
 		return func(fr *frame, args []value) value {
 			e.noteStub(name)
@@ -1200,6 +1206,7 @@ func reflectPayload(v value) iface {
 
 func init() {
 	reflectExternals = map[string]externalFn{
+		"reflect.TypeOf": func(fr *frame, args []value) value { return iface{} },
 		"reflect.ValueOf": func(fr *frame, args []value) value {
 			st := zero(fr.fn.Signature.Results().At(0).Type()).(structure)
 			st[0] = args[0].(iface)
